@@ -181,7 +181,7 @@ def body_for(beh: Dict[str, Any], req: Optional[Dict[str, Any]]) -> Tuple[bytes,
         n = int(kind[5:])
         msgs = [dict(note1, params={"progressToken": "t", "progress": i}) if i % 2 else
                 dict(note2, params={"level": "info", "data": TEXT + str(i)}) for i in range(n)] + [resp]
-    elif kind in ("empty", "truncated", "nonjson", "nonutf8", "json_scalar", "sse_no_message", "sse_bad_json"):
+    elif kind in ("empty", "truncated", "nonjson", "nonutf8", "json_scalar", "sse_no_message", "sse_bad_json", "sse_bad_byte_in_string"):
         msgs = []
     else:
         raise KeyError(kind)
@@ -201,6 +201,12 @@ def body_for(beh: Dict[str, Any], req: Optional[Dict[str, Any]]) -> Tuple[bytes,
         return b": just a comment\n\nevent: ping\ndata: {}\n\n", []
     if kind == "sse_bad_json":
         return b"event: message\ndata: {not json\n\n", []
+    if kind == "sse_bad_byte_in_string":
+        # a well-framed event whose JSON text holds a byte that is not UTF-8 inside a string: the body is malformed -
+        # nothing "repaired" may be delivered as if the server had said it
+        good = json.dumps(resp, ensure_ascii=False).encode("utf-8")
+        cut = good.index(b'"text"') + 9 if b'"text"' in good else len(good) // 2
+        return b"event: message\ndata: " + good[:cut] + b"\xff\xfe" + good[cut:] + b"\n\n", []
     if ctype in ("sse", "sse_charset", "sse_upper") or beh.get("force_sse_body"):
         enc = beh.get("sse") or {}
         return sse_encode(msgs, enc), msgs
@@ -247,6 +253,8 @@ def single_behaviours() -> List[Dict[str, Any]]:
             for ct in ("json", "other", None):
                 out.append({"status": status, "ctype": ct, "body": body})
     out.append({"status": 200, "ctype": "sse", "body": "sse_note_then_truncated"})
+    out.append({"status": 200, "ctype": "sse", "body": "sse_bad_byte_in_string"})
+    out.append({"status": 200, "ctype": "sse_charset", "body": "sse_bad_byte_in_string"})
     for j_ in ("text", "number", "string", "true", "html"):
         out.append({"status": 200, "ctype": "sse", "body": "sse_note_then_nonmessage:" + j_})
     out.append({"status": 200, "ctype": "json", "body": "json_batch_note_then_junk"})
@@ -636,6 +644,13 @@ def exec_case(ctx, seq: List[Dict[str, Any]]) -> None:
                 mech = "server_message_altered"
             ctx.violation(mech, f"request #{k} ({beh}): read stream got {[g[:3] for g in got_n]!r}, server sent "
                           f"{[norm_any(m)[:3] for m in exp]!r}", case)
+        elif ref["mode"] == "terminal" and ok_term and terminal[0][0] == "response" and \
+                beh.get("body") in ("truncated", "nonjson", "nonutf8", "json_scalar", "sse_bad_json", "sse_bad_byte_in_string") \
+                and beh.get("status", 200) < 400:
+            # the body was there but carried no message: the request ends in a synthesised *error* - a result would be
+            # something the server never said (e.g. a text "repaired" by replacing undecodable bytes)
+            ctx.violation("message_invented_or_duplicated", f"request #{k} ({beh}): the body carries no valid message, yet the read "
+                          f"stream got a *result* {[g[:3] for g in got_n]!r}", case)
         elif ref["mode"] == "terminal" and not ok_term:
             if not terminal:
                 idstr = [g for g in got_n if g[1] == tagged(str(rid)) and not isinstance(rid, str)]
